@@ -358,4 +358,76 @@ example : (runFrom 70 100 demo).isSome = true := by decide +kernel
 example : runFrom 35 100 [.encode 0 [fa1], .cancel 0, .deliverAck 9, .encode 4 [fa2], .deliverBlock 4] = none := by
   decide +kernel
 
+/-! ## The encoder stream in chunks (D-20f) and the blocked-stream limit (O-20e)
+
+`Decoder::on_encoder_recv` takes any `Buf`; `parse_instruction` looks at `read.chunk()` only. The case-line op
+`denc:<k>@<j>.<m>,…` hands the same `k` instructions over in several chunks (`H3.Dyn.stepCut`, `cutLen`, `innerCut`). -/
+
+theorem foldl_min_le (l : List Nat) (a : Nat) : l.foldl min a ≤ a := by
+  induction l generalizing a with
+  | nil => exact Nat.le_refl _
+  | cons x r ih => exact Nat.le_trans (ih (min a x)) (Nat.min_le_left a x)
+
+theorem cutLen_le (ins : List EncInstr) (cuts : List (Nat × Nat)) : cutLen ins cuts ≤ ins.length :=
+  foldl_min_le _ _
+
+theorem cutLen_boundaries (ins : List EncInstr) (cuts : List (Nat × Nat))
+    (h : ∀ c ∈ cuts, innerCut ins c = false) : cutLen ins cuts = ins.length := by
+  have hf : cuts.filter (innerCut ins) = [] := by
+    rw [List.filter_eq_nil_iff]
+    intro c hc
+    simp [h c hc]
+  unfold cutLen
+  rw [hf]
+  rfl
+
+/-- **Cut deliveries (partial).** FULL statement, which is FALSE (`C20_D20f_witness`): for all cuts
+    `stepCut s k cuts = step s (.deliverEnc k)` — into which chunks the bytes of the encoder stream are split does not
+    matter. Proved: (1) whatever the cuts, a cut delivery IS a whole delivery of a prefix of the instructions handed over
+    (nothing is mis-parsed, reordered or lost; the rest stays at the head of the encoder stream), so every theorem of this
+    file about histories covers histories with cut deliveries — an instruction that crosses a chunk boundary is an
+    instruction that arrives late; (2) when no cut lies inside an instruction (chunks end at instruction boundaries, or
+    the instruction has a single byte) the cut delivery is the whole delivery.
+    Missing: the decoder stops in front of an instruction that crosses a chunk boundary (D-20f). -/
+theorem C20_cut_delivery_partial (s : Sys) (k : Nat) (cuts : List (Nat × Nat)) :
+    (∃ n, n ≤ (s.handed k).length ∧ stepCut s k cuts = step s (.deliverEnc n)) ∧
+    ((∀ c ∈ cuts, innerCut (s.handed k) c = false) → stepCut s k cuts = step s (.deliverEnc k)) := by
+  refine ⟨⟨_, cutLen_le _ _, rfl⟩, fun h => ?_⟩
+  unfold stepCut
+  rw [cutLen_boundaries _ _ h]
+  have ht : (s.encQ.drop s.encDel).take ((s.handed k).length) = (s.encQ.drop s.encDel).take k := by
+    unfold Sys.handed
+    rw [List.take_eq_take_iff, List.length_take]
+    omega
+  simp only [step, ht]
+
+def fb0 : Field := ⟨[98], []⟩
+
+-- non-vacuity: three instructions (two insertions, a one-byte Duplicate); cuts in front of the second and "inside" the
+-- Duplicate are no inner cuts, the delivery is whole; a cut inside the second insertion stops in front of it
+example : (runFrom 4096 100 [.encode 0 [fa1, fb2, fa1]]).map (fun s =>
+      (s.handed 9, (s.handed 9).map (·.oneByte), cutLen (s.handed 9) [(1, 0), (2, 1), (7, 3)], cutLen (s.handed 9) [(2, 1), (1, 3)])) =
+    some ([.insertLit [97] [49], .insertLit [98] [50], .dup 1], [false, false, true], 3, 1) := by decide +kernel
+
+/-- **D-20f** (open): both insertions of the section are handed to the decoder in ONE `Buf`, the first of them
+    crossing a chunk boundary: `on_encoder_recv` processes nothing (whole delivery: both, Insert Count Increment 2) and
+    the section stays blocked although the decoder was given everything it depends on. -/
+theorem C20_D20f_witness :
+    (runFrom 200 1 [.encode 0 [fa1, fb2]]).map (fun s =>
+      (stepCut s 99 [(0, 2)] |>.toOption.map (fun r => (r.2, step r.1 (.deliverBlock 0) |>.toOption.map (·.2))),
+       step s (.deliverEnc 99) |>.toOption.map (fun r => (r.2, step r.1 (.deliverBlock 0) |>.toOption.map (·.2))))) =
+    some (some (.encRecv 0 0 none, some (.blocked 2)),
+          some (.encRecv 2 2 (some 2), some (.blockOk [fa1, fb2]))) := by decide +kernel
+
+/-- **O-20e** (observation; RFC 9204 2.1.2, not demanded by the property's text): with a blocked-stream limit of 1,
+    after two sections on two streams the encoder has TWO streams that could become blocked (Required Insert Counts 2
+    and 1, known received count 0): the second section's reference came from `find()`, which does not consult
+    `blocked_count` (2 here, above `blocked_max` = 1). The history is plain; every theorem above holds for it. -/
+theorem C20_O20e_blocked_limit_witness :
+    plainHistory [.encode 0 [fb0, fa2], .encode 4 [fb2]] = true ∧
+    (runFrom 200 1 [.encode 0 [fb0, fa2], .encode 4 [fb2]]).map (fun s =>
+      ([atRisk s, s.enc.blockedMax, s.enc.blockedCount, s.enc.lkr], (s.stream 0).todo.map (·.required), (s.stream 4).todo.map (·.required))) =
+    some ([2, 1, 2, 0], [2], [1]) :=
+  ⟨by decide, by decide +kernel⟩
+
 end H3.Props.C20
